@@ -97,6 +97,12 @@ func checkID(id, kind string, sigil byte) (err error) {
 // plus the room ID grammar, so that PDU.RoomID() cannot fail on an accepted event.
 func checkRoomIDField(id string) error {
 	if err := checkID(id, "room", '!'); err != nil {
+		// A room ID over the byte limit is not a valid room ID at all, and no event is returned
+		// for it: the error must not claim that the event can be persisted.
+		if verr, ok := err.(EventValidationError); ok && verr.Persistable {
+			verr.Persistable = false
+			return verr
+		}
 		return err
 	}
 	if _, err := spec.NewRoomID(id); err != nil {
